@@ -111,7 +111,7 @@ func compareModel(c *Ctx, p *m.Program, opt compareOpts) (*m.Result, *sb.Resp, *
 			return res, r, &Fail{Sig: "status:error-expected-ok", Expected: "ok: " + res.Out, Observed: "error: " + r.Err + "\nsource: " + src}
 		}
 		if r.Out != res.Out {
-			return res, r, &Fail{Sig: "out-mismatch", Expected: res.Out, Observed: r.Out + "\nsource: " + src}
+			return res, r, &Fail{Sig: "out-mismatch", Expected: diffHead(res.Out, r.Out) + res.Out, Observed: r.Out + "\nsource: " + src}
 		}
 		if !opt.noCalls {
 			if ok, why := callsEqual(res.Calls, r.Calls); !ok {
@@ -190,4 +190,20 @@ var poisonTemplates = []string{
 	"{% block b %}STALE-BLOCK {{ nosuchfunction() }}{% endblock %}{{ block('b') }}",
 	"{% set a %}S1{% filter up %}s2{% set b %}S3{{ 1|nosuchfilter }}{% endset %}{% endfilter %}{% endset %}",
 	"STALE-TOP{% for i in 1..3 %}{% set c %}x{{ i }}{% include 'missing' %}{% endset %}{% endfor %}",
+}
+
+// diffHead says where two long outputs part (the recorded texts are clipped).
+func diffHead(want, got string) string {
+	if len(want) < 2000 && len(got) < 2000 {
+		return ""
+	}
+	i := 0
+	for i < len(want) && i < len(got) && want[i] == got[i] {
+		i++
+	}
+	from := i - 60
+	if from < 0 {
+		from = 0
+	}
+	return fmt.Sprintf("(lengths %d / %d, first difference at byte %d: want %q, got %q) ", len(want), len(got), i, clip(want[from:], 160), clip(got[from:], 160))
 }
